@@ -9,7 +9,13 @@ def mut(name, props, file, old, new): M.append((name, props, file, old, new))
 # ---- encoding layer
 mut("C03: struct field read at offset+1", ["C03"], "struct.go", "func (p Struct) Uint16(off DataOffset) uint16 {", "func (p Struct) Uint16(off DataOffset) uint16 {\n\toff ^= 2")
 mut("C13: zero-run count off by one", ["C13"], "internal/packed/packed.go", "\t\t\tif z > 255 {", "\t\t\tif z > 254 {")
-mut("C17: Equal ignores the last data byte of structs", ["C17"], "canonical.go", "XXXX-not-present", "")
+mut("C01: double-far landing pad checked for one word only", ["C01"], "segment.go", "\t\tif !padSeg.regionInBounds(padAddr, wordSize*2) {", "\t\tif !padSeg.regionInBounds(padAddr, wordSize) {")
+mut("C01: far pointer landing pad address not bounds-checked", ["C01", "C03"], "segment.go", "\t\tif !dst.regionInBounds(padAddr, wordSize) {", "\t\tif false {")
+mut("C02: lists do not consume the depth limit", ["C02"], "segment.go", "\t\tlp.depthLimit = depthLimit - 1", "\t\tlp.depthLimit = depthLimit")
+mut("C02: structs are not charged to the traversal limit", ["C02"], "segment.go", "\t\tif !s.msg.canRead(sp.readSize()) {", "\t\tif false {")
+mut("C13: literal run limit 256 words", ["C13"], "internal/packed/packed.go", "\t\t\tend := min(len(src), 0xff*wordSize)", "\t\t\tend := min(len(src), 0x100*wordSize)")
+mut("C14: too many segments accepted by the decoder", ["C14"], "message.go", "\tif maxSeg > maxStreamSegments {\n\t\treturn nil, newError(\"decode: too many segments to decode\")\n\t}", "")
+mut("C17: struct data compared over the shorter length only", ["C17"], "pointer.go", "XXXX-not-present", "")
 # ---- rpc: C06
 mut("C06: no embargo when a pipelined path resolves to a local capability", ["C06"], "rpc/rpc.go",
     "\t\t\tvar id embargoID\n\t\t\tid, mtab[i] = c.embargo(mtab[i])", "\t\t\tcontinue\n\t\t\tvar id embargoID\n\t\t\tid, mtab[i] = c.embargo(mtab[i])")
